@@ -118,6 +118,11 @@ func (r *Reader) readRecord() (*record, error) {
 	// Read payload
 	data := make([]byte, length)
 	if _, err := io.ReadFull(r.reader, data); err != nil {
+		// The header was there, so a file that ends right behind it is torn
+		// as well, not complete (ReadFull reports plain EOF if it got nothing)
+		if err == io.EOF && length > 0 {
+			err = io.ErrUnexpectedEOF
+		}
 		return nil, err
 	}
 
